@@ -34,6 +34,10 @@ ORACLE_TEXT = {
                         "stop() returns once the body has returned"),
     "deadlock": ("no thread can move and the system is not finished", "no deadlock"),
     "hang": ("after this schedule the pending call (stop() / destructor / join) never returns although all threads run freely", "stop() returns once the body has returned; destroying the AsyncLoop always terminates"),
+    "launch": ("the object did not take the launch method the constructor's resolution prescribes (backgroundThread.joinable() differs from "
+               "resolve method numTaskingThreads)",
+               "an explicit THREAD request always owns (and joins) its thread, an explicit TASK request never does, AUTO owns a thread iff "
+               "numTaskingThreads() <= 4"),
     "stuck": ("a thread did not reach its next scheduling point (blocked where the model says it can move)",
               "every granted step reaches the next scheduling point"),
 }
@@ -111,13 +115,108 @@ def stress(ctx, exe, launch, cycles, seed, inject, budget_ms):
             "inject": inject, "body_runs": runs, "body_while_stopped": bad, "lost_wakeups": lost}
 
 
+METHODS, SIZES = ("THREAD", "TASK", "AUTO"), (0, 2, 8)     # 0 = tasking system not initialised
+
+
+def launch_once(ctx, exe, method, n, env=None):
+    e = {"C03_METHOD": method, "C03_NTHREADS": str(n)}
+    e.update(env or {})
+    rc, out, err = ctx.run_exe(exe, ["launch"], timeout=BIG, env=e)
+    m = re.search(r"LAUNCH method=(\w+) requested_threads=(-?\d+) num_tasking_threads=(-?\d+) joinable=(\d) dtor_waited=(\d) "
+                  r"body_finished_when_dtor_returned=(-?\d+) body_begins_after_dtor=(-?\d+) loop_gone=(\d)", out)
+    return rc, out, m
+
+
+def launch_matrix(ctx, model, exes):
+    """destroy-while-the-body-is-in-flight (no stop() before) for every requested method x tasking-system size x backend:
+    which launch did the object take (vs. the model's resolve), and did ~AsyncLoop wait for the body when it owns its thread"""
+    rows = []
+    for backend, exe in exes:
+        for method in METHODS:
+            for n in SIZES:
+                rc, out, m = launch_once(ctx, exe, method, n)
+                if not m:
+                    ctx.log("launch scenario %s/%s/%d gave no result (%s) -- re-running with 4x patience" % (backend, method, n, out.strip()[:200]))
+                    rc, out, m = launch_once(ctx, exe, method, n, PATIENT)
+                cfg = {"mode": "launch", "backend": backend, "method": method, "nthreads": n,
+                       "rerun": "C03_METHOD=%s C03_NTHREADS=%d %s launch" % (method, n, exe)}
+                if not m:
+                    if "LAUNCH-STUCK" in out:
+                        ctx.violation("launch %s on a tasking system of %d threads (%s): the body never ran after start() returned, twice" % (method, n, backend),
+                                      dict(cfg, observed=out.strip()[-300:], required=ORACLE_TEXT["start_progress"][1]))
+                    else:
+                        ctx.broken.append("launch scenario %s/%s/%d did not finish (rc=%s): %s" % (backend, method, n, rc, out[-200:]))
+                    continue
+                N, joinable, waited, fin, after, gone = (int(m.group(k)) for k in (3, 4, 5, 6, 7, 8))
+                rc2, exp, _ = vlib.sh2([model, "resolve", method, str(N)], timeout=BIG)
+                exp = exp.strip()
+                ctx.count(1)
+                row = dict(cfg, num_tasking_threads=N, model_resolve=exp, joinable=joinable, dtor_waited_for_body=waited,
+                           body_finished_when_dtor_returned=fin, body_begins_after_dtor=after)
+                row.pop("rerun")
+                rows.append(row)
+                owns = exp == "T"
+                problems = []
+                if bool(joinable) != owns:
+                    problems.append("the object %s a joinable thread although resolve %s %d = %s"
+                                    % ("owns" if joinable else "does NOT own", method, N, "THREAD" if owns else "TASK"))
+                if owns and fin != 1:
+                    problems.append("~AsyncLoop returned while the in-flight body invocation was still running")
+                if owns and after > 0:
+                    problems.append("%d body invocation(s) began after ~AsyncLoop returned" % after)
+                if problems:
+                    ctx.violation("requested launch %s, numTaskingThreads() = %d (%s backend), destroyed while a body invocation was in flight: %s"
+                                  % (method, N, backend, "; ".join(problems)),
+                                  dict(cfg, num_tasking_threads=N, observed=m.group(0),
+                                       required=ORACLE_TEXT["launch"][1] + "; " + ORACLE_TEXT["dtor_safe"][1]))
+                elif owns:
+                    ctx.nontriv("launch %s %s %d" % (backend, method, n))
+    ctx.cov["launch_matrix"] = rows
+    ctx.cov["launch_matrix_note"] = ("resolved-TASK rows: the destructor does not join (body_finished_when_dtor_returned = 0 is allowed; "
+                                     "the property constrains only the thread-owning case)")
+
+
+def forced_config(ctx, exe, method, n, cases, mlines):
+    """forced replay of `cases` on an object constructed with (method, n tasking threads); returns persistent mismatches"""
+    env = {"C03_METHOD": method, "C03_NTHREADS": str(n)}
+    rc, il, err = vlib.run_lines(ctx, exe, ["replay"], cases, timeout=BIG, env=env)
+    bad = [i for i in range(len(cases)) if (il[i] if i < len(il) else "<no output>") != mlines[i]]
+    out = []
+    if bad:
+        rc, il2, err = vlib.run_lines(ctx, exe, ["replay"], [cases[i] for i in bad], timeout=BIG, env=dict(env, **PATIENT))
+        for k, i in enumerate(bad):
+            x = il2[k] if k < len(il2) else "<no output: harness died>"
+            if x != mlines[i] and x != "SKIPPED":
+                out.append((i, x, mlines[i]))
+    return out
+
+
+def explore_config(ctx, exe, method, n, letter, maxstates, budget):
+    env = {"C03_METHOD": method, "C03_NTHREADS": str(n)}
+    xargs = ["explore", letter, str(maxstates), str(budget)]
+    rc, out, err = ctx.run_exe(exe, xargs, timeout=BIG, env=env)
+    if "XVIOL " in out or "XDONE" not in out:
+        first = out
+        rc, out, err = ctx.run_exe(exe, xargs, timeout=BIG, env=dict(env, **PATIENT))
+        k1 = set(re.findall(r"XVIOL (\w+)", first))
+        out = "\n".join(ln for ln in out.split("\n") if not ln.startswith("XVIOL ") or ln.split()[1] in k1)
+    return rc, out
+
+
 def run(ctx):
     if getattr(ctx, "replay", None):
         doc = json.load(open(ctx.replay))
         exe = ctx.cxx(["harness.cpp"], "harness", backend="omp", sanitize=None)
         if exe and doc.get("schedule"):
-            rc, out, err = ctx.run_exe(exe, ["replay"], stdin="R %s %s\n" % (doc.get("launch", "T"), doc["schedule"]), timeout=BIG)
+            env = {"C03_METHOD": doc["method"], "C03_NTHREADS": str(doc["nthreads"])} if doc.get("method") else None
+            if doc.get("backend") == "tbb":
+                exe = ctx.cxx(["harness.cpp"], "harness_tbb", backend="tbb", sanitize=None)
+            rc, out, err = ctx.run_exe(exe, ["replay"], stdin="R %s %s\n" % (doc.get("launch", "T"), doc["schedule"]), timeout=BIG, env=env)
             print("replay of %s on %s:\n  %s" % (doc["schedule"], ctx.repo, out.strip().replace(" ; ", "\n  ")))
+        elif doc.get("mode") == "launch":
+            exe2 = exe if doc.get("backend") == "omp" else ctx.cxx(["harness.cpp"], "harness_tbb", backend="tbb", sanitize=None)
+            rc, out, m = launch_once(ctx, exe2, doc["method"], doc["nthreads"])
+            print(out.strip())
         elif exe and doc.get("mode") == "stress":
             rc, out, err = ctx.run_exe(exe, ["stress", doc["launch"], str(doc["cycles"]), str(doc["stress_seed"]), str(doc["inject_delays"]),
                                              str(doc.get("budget_ms", 600000))], timeout=BIG)
@@ -126,7 +225,8 @@ def run(ctx):
 
     ctx.coq_check(("Properties.v",))
     model = ctx.extract()
-    exe = ctx.cxx(["harness.cpp"], "harness", backend="omp", sanitize=None)
+    exe, exe_tbb = ctx.cxx_many([dict(sources=["harness.cpp"], out="harness", backend="omp", sanitize=None),
+                                 dict(sources=["harness.cpp"], out="harness_tbb", backend="tbb", sanitize=None)])
     ctx.trusted += [
         "interleaving semantics given to the C++ primitives in coq/C03/Model.v: seq_cst std::atomic load/store = one atomic step of a "
         "sequentially consistent interleaving; std::mutex = mutual exclusion; condition_variable::wait(lock,pred) = while(!pred){atomically "
@@ -134,16 +234,18 @@ def run(ctx):
         "hand-written model (Tie B) tied to the code by forced-schedule replay: harness/C03/harness.cpp (scheduling controller, mutex probe for "
         "'asleep', private state via #define private public), ocaml/C03/driver.ml (edge enumeration, shortest paths), props/C03/check.py",
         "the scheduling points added to rkcommon/tasking/AsyncLoop.h under #ifdef RKCOMMON_VERIF (guard off: preprocessed source identical)",
-        "g++ -O1, libstdc++ std::thread/mutex/condition_variable, OpenMP-backend tasking::schedule (detached std::thread) for TASK launch",
+        "g++ -O1, libstdc++ std::thread/mutex/condition_variable; tasking::schedule of the OpenMP backend (detached std::thread) and of the TBB "
+        "backend (task_arena::enqueue), tasking::initTaskingSystem / numTaskingThreads of both",
     ]
     ctx.assumptions += [
         "the loop body returns (body termination) and the OS scheduler is fair: the progress theorems are 'within K steps of the loop thread'",
-        "TASK launch: the tasking backend eventually runs the scheduled loop task (C02's contract); AsyncLoop::AUTO picks one of the two modelled methods",
+        "TASK launch: the tasking backend eventually runs the scheduled loop task (C02's contract); the constructor's choice between the two "
+        "modelled launches is Model.resolve (method, numTaskingThreads()), compared with backgroundThread.joinable() on 3 methods x 3 sizes x 2 backends",
         "one controller thread: start()/stop()/~AsyncLoop are not called concurrently with each other (as the class documents no thread-safety)",
         "17 model edges per launch method (controller locks the mutex while a notified sleeper has not yet re-locked) cannot be forced: "
         "on the real code the woken thread re-locks on its own; they are covered by the Coq theorems only",
     ]
-    if not model or not exe:
+    if not model or not exe or not exe_tbb:
         return
     rc, out, err = ctx.run_exe(exe, ["probe"], timeout=BIG)
     hooks = "HOOKS=1" in out
@@ -296,6 +398,58 @@ def run(ctx):
                 ctx.broken.append("correspondence: the real code's state graph under the controller has %d states / %d edges, the model's has %d / %d (launch %s)"
                                   % (xs[l]["states"], xs[l]["edges"], hdr[l]["forcible_states"], hdr[l]["forcible_edges"], l))
         ctx.cov["implementation_exploration"] = xs
+
+        # the same forced schedules / exploration on the TBB backend, for every requested method x tasking-system size;
+        # the model system is (resolve method n)
+        from concurrent.futures import ThreadPoolExecutor
+        cover = {l: [c for c in cases[:len(cases) - len(wl)] if c.split()[1] == l] for l in ("T", "K")}
+        cover_m = {l: [mlines[i] for i, c in enumerate(cases[:len(cases) - len(wl)]) if c.split()[1] == l] for l in ("T", "K")}
+        cfgs = []
+        for method in METHODS:
+            for n in SIZES:
+                rc_, exp, _ = vlib.sh2([model, "resolve", method, str(n)], timeout=BIG)
+                cfgs.append((method, n, exp.strip()))
+        with ThreadPoolExecutor(max_workers=3) as ex:
+            res = list(ex.map(lambda c: forced_config(ctx, exe_tbb, c[0], c[1], cover[c[2]], cover_m[c[2]]), cfgs))
+        tb = {}
+        for (method, n, l), bad in zip(cfgs, res):
+            nst = sum(len(tokens(c)) for c in cover[l])
+            ctx.count(nst)
+            tb["%s/%d" % (method, n)] = {"model_launch": l, "schedules": len(cover[l]), "steps_compared": nst, "mismatching": len(bad)}
+            if bad:
+                i, x, y = bad[0]
+                d = first_diff(x, y) or (0, x, y)
+                k, sx, sy = d
+                kind = sx.split("!VIOL:")[1].split()[0] if "!VIOL:" in sx else ("hang" if "CLEANUP-HANG" in x else None)
+                rep_ = {"backend": "tbb", "method": method, "nthreads": n, "launch": l, "schedule": " ".join(tokens(cover[l][i])[:k + 1]),
+                        "observed": sx, "model_state": sy}
+                if kind:
+                    ctx.violation("forced schedule on the real AsyncLoop (TBB backend, requested launch %s, tasking system of %d threads): %s"
+                                  % (method, n, ORACLE_TEXT.get(kind, (kind,))[0]), dict(rep_, required=ORACLE_TEXT.get(kind, ("", kind))[1]))
+                else:
+                    corr.append("TBB %s/%d schedule %r step %d: impl %r / model %r" % (method, n, cover[l][i], k + 1, sx, sy))
+        xcfgs = cfgs if ctx.thorough() else [c for c in cfgs if (c[0], c[1]) in (("THREAD", 8), ("AUTO", 8), ("TASK", 2))]
+        with ThreadPoolExecutor(max_workers=3) as ex:
+            xres = list(ex.map(lambda c: explore_config(ctx, exe_tbb, c[0], c[1], c[2], ctx.pick(3000, 20000), ctx.pick(600000, 3000000)), xcfgs))
+        for (method, n, l), (rc, out) in zip(xcfgs, xres):
+            key = "%s/%d" % (method, n)
+            for ln in out.split("\n"):
+                if ln.startswith("XVIOL "):
+                    kind, sched, detail = [s.strip() for s in ln[6:].split("|", 2)]
+                    ctx.violation("exploration of the real AsyncLoop under the scheduling controller (TBB backend, requested launch %s, "
+                                  "tasking system of %d threads): %s" % (method, n, ORACLE_TEXT.get(kind, (kind,))[0]),
+                                  {"backend": "tbb", "method": method, "nthreads": n, "launch": l, "schedule": sched, "observed": detail,
+                                   "oracle": kind, "required": ORACLE_TEXT.get(kind, ("", kind))[1]})
+                m = re.search(r"XDONE states=(\d+) edges=(\d+) replays=(\d+) progress_checks=(\d+) complete=(\d) violations=(\d+)", ln)
+                if m:
+                    tb[key]["exploration"] = dict(zip(("states", "edges", "replays", "progress_checks", "complete", "violations"), map(int, m.groups())))
+                    ctx.count(int(m.group(3)))
+                    if int(m.group(5)) and not ctx.violations and (int(m.group(1)), int(m.group(2))) != (hdr[l]["forcible_states"], hdr[l]["forcible_edges"]):
+                        ctx.broken.append("correspondence (TBB %s): real state graph %s/%s vs model %d/%d"
+                                          % (key, m.group(1), m.group(2), hdr[l]["forcible_states"], hdr[l]["forcible_edges"]))
+            if "XDONE" not in out:
+                ctx.broken.append("implementation exploration on TBB %s did not finish: rc=%s %s" % (key, rc, out[-200:]))
+        ctx.cov["forced_tbb_by_method_and_size"] = tb
         if corr and not ctx.violations:
             ctx.broken.append("correspondence model vs AsyncLoop under forced schedules: %d of %d schedules differ; first: %s"
                               % (len(corr), len(cases), corr[0][:400]))
@@ -304,6 +458,9 @@ def run(ctx):
                "schedules and the implementation-side exploration were NOT possible; only unforced and delay-injected stress was run")
         ctx.log("NOTE: " + msg)
         ctx.cov["forced"] = msg
+
+    # ------------------------------------------------------------------ launch-method resolution (no hooks needed)
+    launch_matrix(ctx, model, [("tbb", exe_tbb), ("omp", exe)])
 
     # ------------------------------------------------------------------ unforced stress
     st = []
